@@ -266,7 +266,7 @@ def _type_sets(prog, fn, tests_on):
     out = []
 
     def chain(node):
-        t = common.unalias(fn.node, node.test, as_node=True) if False else node.test
+        t = node.test
         vals = None
         if isinstance(t, ast.Compare) and len(t.ops) == 1 and src_of(t.left) == tests_on:
             try:
@@ -328,10 +328,10 @@ def flowspec_component_types(prog, rep):
     for n in ast.walk(fc.node):
         if isinstance(n, ast.For) and isinstance(n.target, ast.Name):
             try:
-                it = prog.fold(common.unalias(fc.node, n.iter, as_node=True) or n.iter, fc.module, fc.cls)
+                it = prog.fold(n.iter, fc.module, fc.cls)
             except Exception:
                 try:
-                    it = prog.fold(n.iter, fc.module, fc.cls)
+                    it = prog.fold(ast.parse(common.unalias(fc.node, n.iter), mode='eval').body, fc.module, fc.cls)
                 except Exception:
                     continue
             if not isinstance(it, (list, tuple, set, frozenset, dict)) or not all(isinstance(x, int) for x in it):
@@ -367,7 +367,7 @@ def stateless_codecs(prog, rep):
     from .c10 import shared_state_writes
     sel = lambda f: f.module.name.startswith(('yabgp.message.attribute.nlri', 'yabgp.message.attribute.mpreachnlri',
                                               'yabgp.message.attribute.mpunreachnlri'))
-    nfun, hits = shared_state_writes(prog, sel)
+    nfun, hits = shared_state_writes(prog, sel, allow_memo=True)
     seen = set()
     for f, node, desc in hits:
         key = 'state-write:%s:%s' % (f.qualname.split('yabgp.message.attribute.')[-1], desc.split(' ')[0][:60])
@@ -407,7 +407,8 @@ def check(prog, rep, tier):
                       'is written back by construct_nlri (a type the encoder does not iterate over is dropped from '
                       'the re-encoded rule without any error)')
     rep.rule('R07.n', 'NLRI codecs are stateless: no function of the NLRI / MP_REACH / MP_UNREACH codecs writes module, '
-                      'class or configuration state, so a value\'s round trip never depends on earlier calls')
+                      'class or configuration state, so a value\'s round trip never depends on earlier calls (a memo '
+                      'table keyed by the complete, un-rebound argument list is the one exception)')
     rep.rule('R07.l', 'unsigned wire: no signed struct code in any format string of the NLRI / MP codecs')
     rep.assumptions += ['value equality of the round trip is not decided',
                         'a MAC address has six groups (b"".join of one octet per group is 6 octets)']
